@@ -5,7 +5,7 @@ import SH.Model.Insert
   drv_c03 — replays the op stream of go/C03/overlay/cmd/verif-c03 on SH.Model.Insert.
 
   body ops : bucket / item / v / merge / emit / row / end   (state: the aggregation shards of every bucket)
-  codec ops: arg / argcol / uniq / cents / f64 / f32        (stateless)
+  codec ops: arg / argcol / tdcol / uniqcol / uniq / cents / f64 / f32   (stateless)
   The argMin/argMax column reader is modelled as `ARGV` (see SH.Insert.ArgV).
 -/
 open SH SH.Insert
@@ -159,6 +159,41 @@ def argcol (var : ArgV) (n1 b1 n2 b2 : String) : Option (List String) := do
     | none => pure ["argcol error"]
   | none => pure ["argcol error"]
 
+/-- `n1 hex1 n2 hex2 …` -/
+def blocks? : List String → Option (List (Nat × Bytes))
+  | [] => some []
+  | n :: b :: rest => do
+    let n ← n.toNat?
+    let b ← parseHex? b
+    let l ← blocks? rest
+    pure ((n, b) :: l)
+  | _ => none
+
+def showTd (c : List (Nat × Nat)) : String :=
+  let l := sortStr (c.map (fun p => s!"{p.1}:{p.2}"))
+  if l.isEmpty then "-" else ",".intercalate l
+
+def showUq (u : USt) : String :=
+  s!"{u.k}/{u.cnt}/{u.hasZero}/{showList (SH.Insert.sortNat (if u.hasZero then 0 :: u.vals else u.vals))}"
+
+/-- several result blocks through one percentile column; the reader keeps every digest it was handed -/
+def tdcol (rv : ResetV) (toks : List String) : Option (List String) := do
+  let bl ← blocks? toks
+  match bl.mapM (fun b => (readCentroidsCol b.1 b.2).map (·.1)) with
+  | some vals =>
+    let st := colBlocks rv tdReuse vals
+    pure [s!"tdcol {";".intercalate ((readBack st).map (fun o => match o with | some c => showTd c | none => "?"))}"]
+  | none => pure ["tdcol error"]
+
+/-- the same for the uniq column (`Reset` drops the backing array, so no sketch table is ever shared) -/
+def uniqcol (toks : List String) : Option (List String) := do
+  let bl ← blocks? toks
+  match bl.mapM (fun b => (readUniqueCol b.1 b.2).map (·.1)) with
+  | some vals =>
+    let st := colBlocks ResetV.drop (fun (_ _ : USt) => false) vals
+    pure [s!"uniqcol {";".intercalate ((readBack st).map (fun o => match o with | some u => showUq u | none => "?"))}"]
+  | none => pure ["uniqcol error"]
+
 def stepCodec (toks : List String) : Option (List String) :=
   match toks with
   | ["arg", i, s, v] => do
@@ -170,6 +205,9 @@ def stepCodec (toks : List String) : Option (List String) :=
     | _ => pure [s!"arg {showHex enc} dec=error"]
   | ["argcol", _, n1, b1, n2, b2] => argcol ARGV n1 b1 n2 b2
   | ["argcol-old", _, n1, b1, n2, b2] => argcol ArgV.stale n1 b1 n2 b2
+  | "tdcol" :: rest => tdcol ResetV.drop rest
+  | "tdcol-keep" :: rest => tdcol ResetV.keep rest
+  | "uniqcol" :: rest => uniqcol rest
   | ["uniq", alloc, k, cnt, hz, vals] => do
     let alloc ← bool? alloc
     let k ← k.toNat?
